@@ -169,7 +169,7 @@ def run(ctx, focus, nseq=None, depth=8):
         by.setdefault(x['sid'], []).append(x)
     hists = [sorted(v, key=lambda x: x['step']) for k, v in sorted(by.items())]
     # the model's bookkeeping and the harness's must tell the same story (versions are step numbers of the last edit)
-    res = core.parmap(_history, [(h, ctx.tmp) for h in hists], procs=16, chunksize=1)
+    res = core.parmap(_history, [(h, ctx.tmp) for h in hists], procs=16, chunksize=1, min_parallel=4)
     total = agree = 0
     for h, obs in zip(hists, res):
         for k, prob in enumerate(obs):
